@@ -43,6 +43,17 @@ META["C18"] = dict(
     abstracted=["message strings", "print-based default handler"],
 )
 
+META["C05"] = dict(
+    level="proof",
+    technique="data structure against an abstract view: per-method pre/postconditions and frame conditions on the real DataSet methods, VCs from the AST (dicts as domain/value arrays, numpy arrays as index windows) discharged by z3/cvc5; operation-sequence enumeration against a list-of-triples model as labelled bounded stand-in",
+    level_text="For all sizes n>=1, all masks and all inputs: DataSet.__init__ (ordering branch onward), set_mask, get_mask, get_frequencies/get_impedances(masked), low_pass, high_pass and _parse satisfy view postconditions (each point's f, Z, mask stay together; descending presentation; masked/unmasked partition) and frame conditions (caller-owned dicts not modified). Histories follow by induction over the per-method postconditions. subtract_impedances, average, to_dict/JSON and duplicate are covered by the bounded layer only.",
+    level_note="numpy semantics table (flip, array, enumerate, .size, .real/.imag, zip/map/complex) trusted; validation prologue of __init__ abstracted; JSON int(str(i))==i assumed; floats as reals",
+    explanation="Obligations from DataSet.{__init__ (from the ordering branch), set_mask, get_mask, get_frequencies, get_impedances, low_pass, high_pass, _parse}: view postconditions, well-formedness (mask keys = 0..n-1), frames on the caller's mask/dict, loop invariants for the key-pruning and cutoff loops. Bounded: all operation sequences of bounded length against a reference model.",
+    trusted_base=["numpy semantics table of pyvc/npmodel.py"],
+    assumptions=COMMON_ASSUME + ["arguments are of the documented types (the TypeError/ValueError validation prologue of DataSet.__init__ is not modelled)"],
+    abstracted=["DataSet.__init__ validation prologue", "uuid4/basename/splitext are opaque"],
+)
+
 NOT_BUILT = "check not built yet in this session (planned, see DESIGN.md section 3)"
 NOT_APPLICABLE = {
     "C10": "statistical calibration over an RNG distribution and heuristic optimisers: no pre/postcondition within reach of a deductive verifier implies it (DESIGN.md C10); sampling would be a different technique family",
@@ -52,4 +63,4 @@ for _p in ["C%02d" % i for i in range(1, 21)]:
     if _p not in META and _p not in NOT_APPLICABLE:
         NOT_APPLICABLE[_p] = NOT_BUILT
 
-FIX_COMMITS = ["0098309", "82df5c9", "ded46ec"]
+FIX_COMMITS = ["0098309", "82df5c9", "ded46ec", "756923f", "8a458bc"]
